@@ -346,7 +346,10 @@ class ThreadPool(object):
 
         # Create the threads
         for _ in range(nb_pending_tasks):
-            self.__nb_pending_task += 1
+            with self.__lock:
+                # Updated under the lock, like everywhere else: a concurrent
+                # enqueue() could otherwise have its own update overwritten
+                self.__nb_pending_task += 1
             self.__start_thread()
         for _ in range(nb_threads - nb_pending_tasks):
             self.__start_thread()
